@@ -40,7 +40,7 @@ def run(ctx):
     trace = os.path.join(ctx.work, "hist-trace.ndjson")
     tmp = os.path.join(ctx.work, "files")
     os.makedirs(tmp, exist_ok=True)
-    nh, hl = (12, 200) if quick else (60, 2000)
+    nh, hl = (12, 200) if quick else (150, 2000)
     d = ctx.vh(["drive-history", "histories=%d" % nh, "len=%d" % hl, "out=" + trace, "dir=" + tmp], timeout=3000)
     nev, rejects = ctx.validate_histories("Trace_History", trace, procs=8, per_job=(2 if quick else 4))
     ctx.validated += nev - len(rejects)
